@@ -35,6 +35,7 @@ package cache
 //@   props C07 C20 C01
 //@   modifies nothing
 //@   ensures [C07:value-bytes-kept] b != nil && fresh(b) && len(b) == 16 + len(v) && bytesEq(b, 16, v, 0, len(v))
+//@   ensures [C08:time-stamps-in-the-first-16-octets] BE64(b, 0) == uint64(unixOf(storedTime)) && BE64(b, 8) == uint64(unixOf(expireTime))
 // AsyncStore: nothing is queued while redis is away or when the entry has (almost) expired; otherwise private
 // copies of key and value are either handed to the writer goroutine - exactly once, without blocking - or, when
 // its queue is full, released again; the caller's buffers are never queued themselves.
@@ -77,9 +78,24 @@ package cache
 //@   ensures [C07:key-rechecked] v != nil ==> ge != nil && len(ge.k) == len(k) && forall(j, 0, len(k), ge.k[j] == k[j])
 //@   ensures [C07:value-of-that-entry] v != nil ==> ge.v != nil && len(v) == len(ge.v) && bytesEq(v, 0, ge.v, 0, len(v)) && storedTime == ge.storedTime && expireTime == ge.expireTime
 
+// RedisCache.Get: the value is looked up under the caller's key; a reply shorter than the 16 octets of time stamps
+// is a miss; otherwise the two time stamps are the ones in its first 16 octets (what buildValue put there) and the
+// value is everything after them.
 //@ func (c *RedisCache) Get(ctx context.Context, k []byte) (storedTime time.Time, expireTime time.Time, v []byte)
-//@   trusted
+//@   props C07 C08 C01
+//@   requires c != nil && redisOK(c)
+//@   ghost gB []byte = nil
+//@   ghost gE error = nil
+//@   ghost nDo int = 0
+//@   aftercall AsBytes?: gB = ret0
+//@   aftercall AsBytes?: gE = ret1
+//@   oncall Do?: nDo = nDo + 1
 //@   modifies nothing
+//@   callsite BinaryString?: [C07:looked-up-under-the-callers-key] arg0 == k
+//@   ensures [C07:at-most-one-lookup] nDo <= 1
+//@   ensures [C07,C01:error-or-short-reply-is-a-miss] nDo == 0 || gE != nil || len(gB) < 16 ==> v == nil
+//@   ensures [C07:value-is-what-follows-the-time-stamps] v != nil ==> nDo == 1 && gE == nil && len(gB) >= 16 && sameSlice(v, gB, 16, len(gB))
+//@   ensures [C08:time-stamps-as-stored] v != nil ==> unixOf(storedTime) == int64(BE64(gB, 0)) && unixOf(expireTime) == int64(BE64(gB, 8))
 // representation invariant of a constructed MemoryCache (NewMemoryCache sets both counters)
 //@ spec func memOK(c *MemoryCache) bool = c.getTotal != nil && c.hitTotal != nil
 
@@ -108,7 +124,7 @@ package cache
 //@   modifies nothing
 //@   ensures (err == nil) == (c != nil)
 //@   ensures err == nil ==> fresh(c) && memOK(c)
-//@ spec func redisOK(c *RedisCache) bool = c.setDroppedTotal != nil
+//@ spec func redisOK(c *RedisCache) bool = c.setDroppedTotal != nil && c.getTotal != nil && c.hitTotal != nil && c.getLatency != nil && c.client != nil && c.logger != nil
 //@ func NewRedisCache(u string, logger *zerolog.Logger) (c *RedisCache, err error)
 //@   trusted
 //@   modifies nothing
